@@ -420,7 +420,60 @@ def templates(rng, w=None):
         A = bvs("d", wide)
         for msk in (_rol(0xFFFF, a, N), _rol(0xFFFFFFFF, a, N), _rol(0xFFFF, a, wide), r.getrandbits(wide)):
             T.append(["and", ["or", ["shl", A, ["bvv", a, wide]], ["lshr", A, ["bvv", N - a, wide]]], ["bvv", msk & ((1 << wide) - 1), wide]])
-    return [t for t in T if isinstance(t, list)]
+    # single-bit masks in every operand position of two- and three-operand conjunctions
+    for o in ("eq", "ne"):
+        m1 = ["bvv", 1 << r.randrange(w), w]
+        for inner in (["and", m1, x, y], ["and", x, m1, y], ["and", x, y, m1], ["and", m1, x], ["and", x, m1], ["and", m1, ["and", x, y]], ["and", ["and", m1, x], y]):
+            T += [[o, ["xor", inner, m1], ["bvv", 0, w]], [o, ["xor", m1, inner], ["bvv", 0, w]], [o, inner, m1], [o, inner, ["bvv", 0, w]]]
+    T = [t for t in T if isinstance(t, list)]
+    # the same shapes with a third operand put into one commutative two-operand node (rules that look at
+    # args[0] / args[1] of a flattened node must not forget the rest)
+    extra = []
+    for t in T:
+        if r.random() < 0.5:
+            v = _inflate(r, t)
+            if v is not None:
+                extra.append(v)
+    return T + extra
+
+
+_NARY = {"and", "or", "xor", "add", "mul", "band", "bor"}
+
+
+def _inflate(r, t):
+    from vf.ref import bvsem
+
+    paths = []
+
+    def walk(d, path):
+        if not isinstance(d, list) or not d or not isinstance(d[0], str):
+            return
+        if d[0] in ("bvv", "bvs", "bools", "boolv"):
+            return
+        if d[0].split("@")[0] in _NARY and len(d) == 3:
+            paths.append(path)
+        for i, a in enumerate(d[1:], 1):
+            walk(a, (*path, i))
+
+    walk(t, ())
+    if not paths:
+        return None
+    path = r.choice(paths)
+    import copy
+
+    t2 = copy.deepcopy(t)
+    node = t2
+    for i in path:
+        node = node[i]
+    try:
+        if node[0].split("@")[0] in ("band", "bor"):
+            new = ["bools", "r"]
+        else:
+            new = bvs("e", bvsem.width(node))
+    except Exception:  # noqa: BLE001
+        return None
+    node.insert(r.randrange(1, len(node) + 1), new)
+    return t2
 
 
 def _minmax_near(r, q, rr, z, w):
